@@ -40,9 +40,24 @@ def run(W, chk):
                "Claim and Rewards differ: only in claim %s ; only in query %s" % (
                    sorted((k, sorted(v)) for k, v in ca.items() if qa.get(k) != v)[:6], sorted((k, sorted(v)) for k, v in qa.items() if ca.get(k) != v)[:6]),
                where(sends[0]) if sends else A.entry)
+    # exactness: the weight share is never materialised as a fixed-point Decimal (truncated at 18 digits) before it multiplies the
+    # emission - floor(e * trunc(w/t)) differs from floor(e*w/t)
+    for X, lab in ((A, "Claim"), (Q, "Rewards")):
+        lossy = [e for e in X.calls(r"Decimal(256)?::(from_ratio|checked_from_ratio)$")
+                 if any(o.startswith("Store(LP_WEIGHT_HISTORY)") for o in all_origins(e.extra["dargs"][0]) | all_origins(e.extra["dargs"][1]))]
+        chk.expect(not lossy, "ROUND-reward", lab + ".single-floor", "the share weight/total multiplies the emission as an exact fraction (one floor)",
+                   "the weight share is first truncated into a Decimal, then multiplied and floored again (pays up to a unit less per epoch, and breaks additivity)",
+                   where(lossy[0]) if lossy else X.entry)
+    # schedule independence of Claim{until_epoch}: the snapshot carried to the claimed epoch is the one in effect there
+    from rules.C06 import carried_snapshot, UNTIL
+    for e in A.writes():
+        if e.extra.get("item") == "LP_WEIGHT_HISTORY" and e.extra.get("sop") == "save":
+            m = opmap(vfield(e.extra.get("key", EMPTY), "2"))
+            if set(m) and set(m) <= UNTIL and all(not ops for ops in m.values()):
+                carried_snapshot(chk, e, m)
     from rules.common import farm_enumeration_bound
-    farm_enumeration_bound(chk, A, "Claim")
-    farm_enumeration_bound(chk, Q, "Rewards")
+    farm_enumeration_bound(chk, A, "Claim", W)
+    farm_enumeration_bound(chk, Q, "Rewards", W)
     # ---- best effort on the shared helper (skipped when it is not found under this name)
     fid = "farm_manager::farm::commands::calculate_rewards"
     if not W.has_fn(fid):
